@@ -37,11 +37,17 @@ def _steer():
     return st
 
 
-def _cfg(path, maxn, maxe, eobjs, forget, inv, prop):
+def _cfg(path, maxn, maxe, eobjs, forget, inv, prop, view=False):
+    """view=True: states differing only in the record of the last call (res, op) are merged (VIEW StateView);
+    the validity answer is then judged on the transition (ValidExactA) instead of in the state."""
+    if view:
+        inv = " ".join(x for x in inv.split() if x != "ValidExact")
+        prop = "ValidExactA " + prop
     with open(path, "w") as f:
-        f.write("SPECIFICATION Spec\nCONSTANTS\n  MaxN = %d\n  MaxE = %d\n  EObjs = {%s}\n  Forget = {%s}\n"
+        f.write("SPECIFICATION Spec\nCONSTANTS\n  MaxN = %d\n  MaxE = %d\n  EObjs = {%s}\n  Forget = {%s}\n%s"
                 "INVARIANTS %s\nPROPERTIES %s\nCHECK_DEADLOCK FALSE\n" % (
-                    maxn, maxe, ", ".join(str(x) for x in eobjs), ", ".join('"%s"' % x for x in forget), inv, prop))
+                    maxn, maxe, ", ".join(str(x) for x in eobjs), ", ".join('"%s"' % x for x in forget),
+                    "VIEW StateView\n" if view else "", inv, prop))
 
 
 def _sig(kind):
@@ -85,14 +91,14 @@ def _design(ck, quick, wd):
         tree = [(3, 2, [1], True), (3, 3, [], False)]
         dag = [(3, 2, [1], True), (3, 3, [1], False)]
     else:
-        tree = [(3, 2, [1], True), (3, 3, [1, 2], False), (4, 3, [], False), (3, 4, [], False)]
+        tree = [(3, 2, [1], True), (3, 3, [1, 2], False), (4, 4, [], "view")]
         dag = [(3, 2, [1], True), (3, 4, [1], False), (4, 3, [], False)]
     for mod, cfgs, inv, prop in (("Tree", tree, TREE_INV, TREE_PROP), ("Dag", dag, DAG_INV, DAG_PROP)):
         for n, e, objs, cov in cfgs:
             cfg = os.path.join(wd, "%s_design_%d_%d_%d.cfg" % (mod, n, e, len(objs)))
-            _cfg(cfg, n, e, objs, [], inv, prop)
-            r = vc.model_check(SPEC, mod, cfg, coverage=cov, timeout=6000, heap="12g")
-            name = "%s/N%dE%dO%d" % (mod, n, e, len(objs))
+            _cfg(cfg, n, e, objs, [], inv, prop, view=(cov == "view"))
+            r = vc.model_check(SPEC, mod, cfg, coverage=(cov is True), timeout=6000, heap="12g")
+            name = "%s/N%dE%dO%d%s" % (mod, n, e, len(objs), "-view" if cov == "view" else "")
             ck.add_model(name, r, "MaxN=%d MaxE=%d EObjs={%s} Forget={}" % (n, e, ",".join(map(str, objs))))
             if r.invariant:
                 ck.violation("design model %s violates %s" % (name, r.invariant), [r.out[-6000:]], tag="model")
